@@ -175,6 +175,8 @@ class BundleV1(object):
                 return False
 
         with self.data().readonly() as bundle:
+            if not bundle:
+                return False
             size = bundle.read_size(offset)
         return size != 0
 
@@ -216,6 +218,8 @@ class BundleV1(object):
             if not idx:
                 return False
             with self.data().readonly() as bundle:
+                if not bundle:
+                    return False
                 for t in tiles:
                     if t.source or t.coord is None:
                         continue
@@ -253,6 +257,8 @@ class BundleV1(object):
                 return 0, 0
 
             with self.data().readonly() as bundle:
+                if not bundle:
+                    return 0, 0
                 for y in range(BUNDLEX_V1_GRID_HEIGHT):
                     for x in range(BUNDLEX_V1_GRID_WIDTH):
                         offset = idx.tile_offset(x, y)
@@ -387,8 +393,6 @@ class BundleDataV1(object):
         self._fh = None
         self.directory_permissions = directory_permissions
         self.file_permissions = file_permissions
-        if not os.path.exists(self.filename):
-            self._init_bundle()
 
     def _init_bundle(self):
         ensure_directory(self.filename, self.directory_permissions)
@@ -406,13 +410,24 @@ class BundleDataV1(object):
 
     @contextlib.contextmanager
     def readonly(self):
-        with open(self.filename, 'rb') as fh:
-            b = BundleDataV1(self.filename, self.tile_offsets, self.directory_permissions, self.file_permissions)
-            b._fh = fh
-            yield b
+        try:
+            with open(self.filename, 'rb') as fh:
+                b = BundleDataV1(self.filename, self.tile_offsets, self.directory_permissions, self.file_permissions)
+                b._fh = fh
+                yield b
+        except IOError as ex:
+            if ex.errno == errno.ENOENT:
+                # missing bundle file -> missing tile
+                yield None
+            else:
+                raise ex
 
     @contextlib.contextmanager
     def readwrite(self):
+        # only initialize the bundle when writing (called with the bundle lock held),
+        # readers must not create files
+        if not os.path.exists(self.filename):
+            self._init_bundle()
         with open(self.filename, 'r+b') as fh:
             b = BundleDataV1(self.filename, self.tile_offsets, self.directory_permissions, self.file_permissions)
             b._fh = fh
